@@ -145,7 +145,8 @@ def analyse(facts, tier):
         if not pushes:
             continue
         gf = guard_facts(pe, b, st)
-        cases = [f for f in gf if f[0] == 'case' and mentions(f[1], ref_named('evType'))]
+        # the outer switch of the parser runs over a local (the event type nibble); the inner one over a data byte of the event
+        cases = [f for f in gf if f[0] == 'case' and strip(f[1]).get('k') == 'DeclRefExpr']
         key = tuple(sorted(cases[0][2])) if cases else tuple(sorted(str(fact_str(f)) for f in gf if f[0] == 'cmp' and f[1] == '==' and 'byte' in fact_str(f)))
         g = groups.setdefault(key, {'push': 0, 'bound': None, 'loc': st['loc']})
         g['push'] += pushes
